@@ -451,6 +451,31 @@ pub fn dangling(rng: &mut Rng, layout: &Layout) -> DocSpec {
     spec
 }
 
+/// Two stream objects (5 and 6) beside a healthy page tree; `shared_header_patch` then rewrites the
+/// header of object 6 to read "5 0 obj": two cross-reference entries lead to objects that carry the
+/// same number (a file damaged by a careless editor).
+pub fn shared_header(rng: &mut Rng, layout: &Layout) -> DocSpec {
+    let mut b = Builder::new();
+    let catalog = b.reserve();
+    let pages = b.reserve();
+    let p1 = b.add(Val::dict(vec![("Type", Val::name("Page")), ("Parent", Val::r(pages)), ("MediaBox", rect(0, 0, 100, 100)), ("Resources", Val::dict(vec![]))]));
+    let p2 = b.add(Val::dict(vec![("Type", Val::name("Page")), ("Parent", Val::r(pages)), ("Resources", Val::dict(vec![]))]));
+    let s1 = b.add_stream(vec![("Note".into(), Val::Int(1))], b"AAAA first stream".to_vec());
+    let s2 = b.add_stream(vec![("Note".into(), Val::Int(2)), ("Filter".into(), Val::name("ASCIIHexDecode"))], ascii_hex(b"BBBB second stream"));
+    assert_eq!((s1, s2), (5, 6));
+    b.put(pages, Val::dict(vec![("Type", Val::name("Pages")), ("Kids", Val::Arr(vec![Val::r(p1), Val::r(p2)])), ("Count", Val::Int(2)), ("MediaBox", rect(0, 0, 200, 200))]));
+    b.put(catalog, Val::dict(vec![("Type", Val::name("Catalog")), ("Pages", Val::r(pages))]));
+    let mut layout = layout.clone();
+    layout.keep_direct.push(catalog);
+    b.finish(catalog, &layout, rng)
+}
+pub fn shared_header_patch(bytes: &mut Vec<u8>) {
+    let needle = b"\n6 0 obj\n";
+    if let Some(p) = bytes.windows(needle.len()).position(|w| w == needle) {
+        bytes[p + 1] = b'5';
+    }
+}
+
 /// A page tree as deep as `File::get_page` accepts (the root plus up to 15 nested /Pages nodes),
 /// with a leaf at the bottom and one at every third level.
 pub fn deep_tree(rng: &mut Rng, layout: &Layout) -> DocSpec {
@@ -502,6 +527,7 @@ pub enum Family {
     /// `Rich`, written encrypted (RC4, 40 or 128 bit, plain or through crypt filters; empty user password)
     RichEncrypted,
     Dangling,
+    SharedHeader,
 }
 impl Family {
     pub fn name(&self) -> &'static str {
@@ -512,6 +538,7 @@ impl Family {
             Family::DeepTree => "deep_tree",
             Family::RichEncrypted => "rich_encrypted",
             Family::Dangling => "dangling",
+            Family::SharedHeader => "shared_header",
         }
     }
 }
@@ -527,6 +554,7 @@ pub fn generate(family: &Family, rng: &mut Rng) -> DocSpec {
         Family::CyclicParents => cyclic_parents(rng, &layout),
         Family::DeepTree => deep_tree(rng, &layout),
         Family::Dangling => dangling(rng, &layout),
+        Family::SharedHeader => shared_header(rng, &layout),
         Family::RichEncrypted => {
             let o = RichOpts::random(rng);
             let mut layout = layout;
